@@ -142,7 +142,11 @@ fn qd_unit(realm: bool, r: u16) -> String {
         14 => {
             // the parser's two-unit non-ASCII sequence: lead U+C0..U+DF, trail U+A1..U+BF (realm) / U+80..U+BF (nonce)
             let lead = char::from_u32(0xC0 + (v as u32 % 0x20)).unwrap();
-            let trail = if realm {
+            let trail = if realm && v / 0x400 == 3 {
+                // a no-break space in second position is accepted by Realm::new (the profile is only checked, the text
+                // is stored and encoded as given)
+                '\u{a0}'
+            } else if realm {
                 let t = 0xA1 + ((v as u32 / 0x20) % 0x1F);
                 // U+00AD (soft hyphen) is disallowed by OpaqueString
                 // U+00B7 (middle dot) is a CONTEXTO code point, also disallowed on its own
